@@ -892,18 +892,34 @@ func typeDefault(t dsl.Type, contextNamespace string, namedType string, st dsl.S
 
 			dtype := typeDTypeExpression(scalar, context)
 
+			// Elements that are fixed-length vectors or fixed-size arrays are the trailing dimensions of the NumPy array.
+			var elementShape []string
+			if t.Cases.IsSingle() {
+				elementShape = fixedElementShape(t.Cases[0].Type)
+			}
+
 			if td.IsFixed() {
 				dims := make([]string, len(*td.Dimensions))
 				for i, d := range *td.Dimensions {
 					dims[i] = strconv.FormatUint(*d.Length, 10)
 				}
 
-				return fmt.Sprintf("np.zeros((%s,), dtype=%s)", strings.Join(dims, ", "), dtype), defaultValueKindMutable
+				return fmt.Sprintf("np.zeros((%s,), dtype=%s)", strings.Join(append(dims, elementShape...), ", "), dtype), defaultValueKindMutable
 			}
 
 			if td.HasKnownNumberOfDimensions() {
-				shape := fmt.Sprintf("(%s)", strings.Repeat("0, ", len(*td.Dimensions))[0:len(*td.Dimensions)*3-2])
-				return fmt.Sprintf("np.zeros(%s, dtype=%s)", shape, dtype), defaultValueKindMutable
+				dims := make([]string, len(*td.Dimensions))
+				for i := range dims {
+					dims[i] = "0"
+				}
+				if len(elementShape) == 0 {
+					return fmt.Sprintf("np.zeros((%s), dtype=%s)", strings.Join(dims, ", "), dtype), defaultValueKindMutable
+				}
+				return fmt.Sprintf("np.zeros((%s,), dtype=%s)", strings.Join(append(dims, elementShape...), ", "), dtype), defaultValueKindMutable
+			}
+
+			if len(elementShape) > 0 {
+				return fmt.Sprintf("np.zeros((%s,), dtype=%s)", strings.Join(elementShape, ", "), dtype), defaultValueKindMutable
 			}
 
 			return fmt.Sprintf("np.zeros((), dtype=%s)", dtype), defaultValueKindMutable
@@ -914,6 +930,34 @@ func typeDefault(t dsl.Type, contextNamespace string, namedType string, st dsl.S
 	}
 
 	return "", defaultValueKindNone
+}
+
+// The shape that an array element contributes to the NumPy array that holds it: the lengths of
+// nested fixed-length vectors and fixed-size arrays (anything else is stored as one element).
+func fixedElementShape(element dsl.Type) []string {
+	gt, ok := dsl.GetUnderlyingType(element).(*dsl.GeneralizedType)
+	if !ok || !gt.Cases.IsSingle() {
+		return nil
+	}
+
+	switch d := gt.Dimensionality.(type) {
+	case *dsl.Vector:
+		if d.Length == nil {
+			return nil
+		}
+		return append([]string{strconv.FormatUint(*d.Length, 10)}, fixedElementShape(gt.Cases[0].Type)...)
+	case *dsl.Array:
+		if !d.IsFixed() {
+			return nil
+		}
+		dims := make([]string, len(*d.Dimensions))
+		for i, dim := range *d.Dimensions {
+			dims[i] = strconv.FormatUint(*dim.Length, 10)
+		}
+		return append(dims, fixedElementShape(gt.Cases[0].Type)...)
+	}
+
+	return nil
 }
 
 type recordDefaultKey struct {
